@@ -147,6 +147,11 @@ fn params(sc: &Value) -> Result<TlsParameters, String> {
         let ca = std::fs::read(certs_dir().join("ca.pem")).unwrap();
         b = b.add_root_certificate(Certificate::from_pem(&ca).map_err(|e| format!("ca: {e}"))?);
     }
+    match c["store"].as_str() {
+        Some("none") => { b = b.certificate_store(lettre::transport::smtp::client::CertificateStore::None); }
+        Some("default") => { b = b.certificate_store(lettre::transport::smtp::client::CertificateStore::Default); }
+        _ => {}
+    }
     b = b.dangerous_accept_invalid_certs(c["accept_invalid_certs"].as_bool().unwrap_or(false));
     b = b.dangerous_accept_invalid_hostnames(c["accept_invalid_hostnames"].as_bool().unwrap_or(false));
     b.build_native().map_err(|e| format!("params: {e}"))
